@@ -111,7 +111,17 @@ def check_direct(ctx, s, cl, ml):
                 bad.append("ORACLE convertToInt value: impl=%s python=%d" % (ci, int(s)))
         except ValueError:
             bad.append("ORACLE python int() rejects accepted text")
+    cp = field(cl, "pre")
+    if s not in STD_PREFIXES:      # convertPrefixToInt: empty -> 0, otherwise convertToInt
+        exp_p = "0" if s == "" else exp_i
+        if cp != exp_p:
+            bad.append("convertPrefixToInt: impl=%s expected=%s" % (cp, exp_p))
+    cb = field(cl, "bdbl")
     cd, md = field(cl, "dbl"), field(ml, "cd")
+    if cb == "1" and (mf[1] != "1" or cd == "no"):
+        bad.append("canConvertToBasicDouble accepts what isCellMLBasicReal/convertToDouble do not")
+    if cb == "0" and mf[1] == "1" and cd != "no":
+        bad.append("canConvertToBasicDouble rejects a convertible basic real")
     if md == "rej":
         if cd != "no":
             bad.append("convertToDouble: impl converts rejected text to %s" % cd)
@@ -188,6 +198,15 @@ def run(ctx):
     n_enum = 4 if quick else 6
     strings = list(enum_strings(n_enum))
     n_exh = len(strings)
+    # every byte value (the recognisers work on bytes; non-ASCII bytes must never count as digits)
+    allbytes = [chr(b) for b in range(256)]
+    strings += allbytes
+    for t in ("%s1", "1%s", "1.%s", "1e%s", "-%s", "1%s2", "%s.5", "1e+%s"):
+        strings += [t % ch for ch in allbytes]
+    if not quick:
+        strings += [a + b for a in allbytes for b in allbytes]
+    else:
+        strings += [a + b for a in allbytes for b in ctx.rng.sample(allbytes, 6)]
     strings += random_strings(ctx.rng, 3000 if quick else 100000)
     corpus = os.path.join(vf.ROOT, "corpus", "C16.txt")
     if os.path.exists(corpus):
@@ -231,6 +250,12 @@ def run(ctx):
     n_pos = 3 if quick else 4
     pstrings = list(enum_strings(n_pos)) + STD_PREFIXES + ["x"] + random_strings(ctx.rng, 300 if quick else 8000)
     pstrings = [s for s in pstrings if all(32 <= ord(ch) < 127 for ch in s)]  # tab/newline are normalised by XML itself
+    # non-ASCII text (valid UTF-8 in the document): look-alike digits, NBSP, accented letters
+    for cp in [0x0663, 0x0660, 0xFF11, 0xFF10, 0x00A0, 0x00E9, 0x00B2, 0x2212, 0x0967, 0x1D7CF] + [ctx.rng.randrange(0x80, 0x2FFF) for _ in range(6 if quick else 60)]:
+        ch = chr(cp)
+        if 0xD800 <= cp < 0xE000:
+            continue
+        pstrings += [t % ch for t in ("%s", "1%s", "%s1", "1.5e%s", "-%s", "1.%s", "+%s")]
     pf = os.path.join(ctx.workdir, "pos.cases")
     with open(pf, "w") as f:
         for s in pstrings:
